@@ -138,6 +138,9 @@ pub fn framespec_strategy(max_exp: u8, max_seqs: usize, big: bool) -> impl Strat
             fcs_bytes,
             checksum,
             dict_id_bytes,
+            // derived, so that the tuple (and with it every stored case) keeps its shape: about a
+            // quarter of the dictionary-less frames that ask for an id width spell out "id 0"
+            zero_dict_id: dict_id_bytes > 0 && (window_desc as usize + blocks.len()) % 3 == 0,
             blocks,
         })
 }
